@@ -101,8 +101,8 @@ def run(ctx):
                     if linph != expph:
                         ctx.soft('model-vs-reference', 'model gate_lin phase for %s differs from c + alpha*phi_a + beta*phi_b' % g, {'gate': g, 'case': ml[mi.index(ci)][:100000]})
                     mp = ints(bo[ci])[1]
-                    p, amb = predict(s, lin[:-1], lin[-1])
-                    if mp != p and not amb: ctx.soft('model-vs-reference', 'model exponent differs from the independent formula', {'gate': g})
+                    p, cand = predict(s, lin[:-1], lin[-1])
+                    if mp != p: ctx.soft('model-vs-reference', 'model exponent differs from the independent formula', {'gate': g})
                     drift = vlib.w32(mp * 2**21 - linph); maxdrift = max(maxdrift, abs(drift)) if kind != 'edge' else maxdrift
                     pred = 1 if mp < N else 0
                     # at an exact rounding tie the extracted model of modSwitchFromTorus32 (proved nearest in C13, tied to the code there) decides
@@ -114,7 +114,12 @@ def run(ctx):
                     tgt = MU if exp_bit else -MU
                     e = abs(vlib.w32(ph - tgt));
                     if gi not in (10, 11): maxerr = max(maxerr, e)
-                    if bit != exp_bit or (e >= 2**29):
+                    if kind == 'edge' and exp is None and bit != exp_bit:
+                        # the combination sits exactly on a rounding tie: C13 allows either direction, the model of the library rounds up.
+                        # A disagreement here means the constant/coefficients moved by one unit or the tie direction changed: not a wrong truth table by itself
+                        ctx.soft('correspondence:gate-edge-tie', '%s/%s, %d-bit set: %s with trivial inputs whose combination %d is an exact rounding tie decrypts to %d, the model of the library gives %d (constant, coefficients or tie direction differ)' % (backend, build, lam, g, comb, bit, exp_bit),
+                                 {'case': line[:200000], 'gate': g, 'kind': 'edge-tie', 'expected_bit': exp_bit, 'observed_bit': bit, 'backend': backend, 'build': build})
+                    elif bit != exp_bit or (e >= 2**29):
                         what = ('%s/%s, %d-bit set: %s on %s inputs decrypts to %d, expected %d (output phase %d)' % (backend, build, lam, g, kind, bit, exp_bit, ph)) if kind != 'edge' else \
                                ('%s/%s, %d-bit set: %s with trivial inputs whose combination c_g + alpha*b_a + beta*b_b = %d must round to the %s half: decrypts to %d (the gate\'s constant or coefficients differ)' % (backend, build, lam, g, comb, 'positive' if exp_bit else 'negative', bit))
                         ctx.report('gate-wrong', what, {'case': line[:200000], 'gate': g, 'kind': kind, 'expected_bit': exp_bit, 'observed_bit': bit, 'phase': ph, 'backend': backend, 'build': build, 'secret': s})
